@@ -28,7 +28,7 @@ ASSUMPTIONS = ['an invariant over single calls; argument-shape breadth is input 
                'a lambda that itself calls a mutator is the lambda\'s doing (not generated in the own workload)']
 REAL = ['smartquery.functions (every table entry)', 'evaluator']
 STUB = ['host (owner of the objects passed in)', 'entropy source']
-REACH_PROBES = ('builtin_raised_with_container_arg', 'pipeline', 'host_defaultdict_arg', 'key_function', 'every_nonmutator_called')
+REACH_PROBES = ('big_nested_host_list', 'failed_multiline_parse', 'builtin_raised_with_container_arg', 'pipeline', 'host_defaultdict_arg', 'key_function', 'every_nonmutator_called')
 
 
 def _world(r):
@@ -42,6 +42,20 @@ def generate(seed, tier):
     world = _world(rc)
     ops = []
     for _ in range(rc.randint(3, 12)):
+        x = ro.random()
+        if x < 0.015:
+            # a host list just above 10000 elements nested in a container, reached through builtins that hand back a
+            # reference into their argument
+            ops.append({'op': 'src', 'src': ro.choice(['get(BIGD, "series") | len', 'BIGD["series"] | len', '(BIGD | values) | max | len',
+                                                       '(BIGD | values) | reduce((p, q) => p) | len', 'BIGD | get("series") | index_of(3)',
+                                                       '[BIGD["series"]] | min | len', 'BIGD | items | len']), 'entropy': 1})
+            continue
+        if x < 0.075:
+            # a multi-line text rejected on its last line; whatever its first lines say must not run - now or later
+            ops.append({'op': 'src', 'bad': True, 'entropy': 1,
+                        'src': ro.choice(['push(L, 0)\nL | len )', 'L[0] = 99\n( L', 'pop(LS)\nLS | join(",") $', 'x = 1; remove(D, "a"); D | keys ]',
+                                          'insert(NL, 0, 1)\n\nNL | len +'])})
+            continue
         ops.append({'op': 'apply', 'pick': ro.randrange(10 ** 6), 'shape_seed': ro.randrange(2 ** 32), 'pipeline': ro.random() < 0.3,
                     'known': ro.random() < 0.6, 'style': gen.style(S['render']), 'entropy': ro.randrange(2 ** 32)})
     return {'world': world, 'ops': ops}
@@ -86,17 +100,27 @@ def execute(case, ctx):
     nonmut = sorted(n for n in table if n not in monitors.MUTATORS)
     table_names = sorted(table)
     called = set()
+    bigd = {'series': list(range(10001)), 'other': [1]}
     for step, op in enumerate(case['ops']):
         ctx.step = step
-        tree, used = _build(op, nonmut, table_names, extra)
-        src = lang.render(tree, op.get('style', 0))
+        if op['op'] == 'src':
+            src, used = op['src'], ['src']
+            tree = None
+            ctx.probe('failed_multiline_parse' if op.get('bad') else 'big_nested_host_list')
+        else:
+            tree, used = _build(op, nonmut, table_names, extra)
+            src = lang.render(tree, op.get('style', 0))
         ENTROPY.script(op.get('entropy', 0))
         rec = monitors.Rec()
         rec.pre_builtin_hooks = (hooks.c13_pre,)
         rec.builtin_hooks = (hooks.c13_post,)
+        with_big = op['op'] == 'src' and 'BIGD' in src
+        if with_big:
+            names['BIGD'] = bigd          # only bound for the calls that use it (snapshots of 10^4 elements are slow)
         before = canon.snap(names)
         rout = real_eval(parser, src, names, budget=20000, rec=rec)
         after = canon.snap(names)
+        names.pop('BIGD', None)
         ctx.event(step, used, rout.kind, canon.digest(rout.brief()))
         ctx.op_kind(used[0])
         ctx.state(canon.digest([used, rout.kind]))
@@ -104,7 +128,12 @@ def execute(case, ctx):
             if f[0] == 'argument_modified':
                 ctx.report('argument_modified', 'step %d %r: builtin %s changed one of its arguments: before %s, after %s' % (
                     step, src[:200], f[1], f[2], f[3]), {'kind': 'argument_modified', 'builtin': f[1]})
-        if after != before and rec.mutator_calls == 0 and not any(f[0] == 'missing_store_skipped' for f in rec.findings):
+        # judged by what the program SAYS: a text without any mutator (and every text that does not even parse) must
+        # leave the host's objects alone, whatever actually ran
+        says_mutator = op.get('bad') is None and (tree is not None and any(n in monitors.MUTATORS for n in lang.names_in(tree)))
+        if op['op'] == 'src' and not op.get('bad'):
+            says_mutator = False
+        if after != before and not says_mutator and not any(f[0] == 'missing_store_skipped' for f in rec.findings):
             ctx.report('host_object_modified', 'step %d %r: no mutator ran, yet the host\'s objects changed: before %s, after %s' % (
                 step, src[:200], hooks._short(before), hooks._short(after)), {'kind': 'host_object_modified', 'builtin': used[0]})
         for nm in rec.builtin_calls:
@@ -114,7 +143,7 @@ def execute(case, ctx):
             ctx.nontrivial = True
         if rout.kind != 'value':
             ctx.probe('builtin_raised_with_container_arg')
-        if op['pipeline']:
+        if op.get('pipeline'):
             ctx.probe('pipeline')
         if 'HD' in src or 'OD' in src:
             ctx.probe('host_defaultdict_arg')
